@@ -225,6 +225,8 @@ Obs == /\ IsKind("obs")
                THEN [g1 EXCEPT !.gbad = Append(@, [props |-> {"C13"}, cause |-> "leak:descriptor"])]
                ELSE IF Line.pending = <<>> /\ alive = {} /\ Line.gor # 0
                THEN [g1 EXCEPT !.gbad = Append(@, [props |-> {"C13"}, cause |-> "leak:goroutine"])]
+               ELSE IF Line.childifds > 0     \* a child process started meanwhile holds the instance: Close releases nothing
+               THEN [g1 EXCEPT !.gbad = Append(@, [props |-> {"C13"}, cause |-> "leak:descriptor_inherited_by_child_process"])]
                ELSE g1
        /\ UNCHANGED seq /\ Next1
 
@@ -272,7 +274,7 @@ Fault == /\ IsKind("fault")
          /\ W' = IF Line.w \in DOMAIN W /\ Line.on THEN [W EXCEPT ![Line.w] = [@ EXCEPT !.flags = @ \cup {"readfault"}]] ELSE W
          /\ UNCHANGED <<seq, g>> /\ Next1
 
-Other == /\ l <= Len(Trace) /\ Line.k \in {"recurse", "bad", "chdir"}
+Other == /\ l <= Len(Trace) /\ Line.k \in {"recurse", "bad", "chdir", "spawn"}
          /\ g' = IF Line.k = "bad" THEN Infra("bad step") ELSE g
          /\ UNCHANGED <<W, seq>> /\ Next1
 
